@@ -240,6 +240,35 @@ def random_expr(rng, depth):
     return safe(lambda: Add(*[c * p if i == 0 else p for i, p in enumerate(parts)]))
 
 
+def directed():
+    """powers of sign-indefinite bases with integer exponents of both parities and signs (and rational ones, also of
+    Abs(base)), alone, inside sums, functions and products: the places where ** versus pow(.,.) and the reading
+    tables' Abs matter"""
+    bases = [a0, a1, a0 + x, a0 - x, a0 * a1, -x, a0 * x - 1, Abs(a0 - x, evaluate=False)]
+    ints = [Integer(k) for k in (-5, -4, -3, -2, 2, 3, 4, 5)]
+    rats = [Rational(1, 2), Rational(-1, 2), Rational(3, 2), Rational(-3, 2), Rational(1, 3), Rational(-2, 3)]
+    ctx = [lambda p: p, lambda p: x + p, lambda p: p - a1, lambda p: -p, lambda p: sin(p), lambda p: exp(p),
+           lambda p: a1 * p, lambda p: p / x, lambda p: 2 * p / 3, lambda p: p * (a0 + 1), lambda p: x / p,
+           lambda p: a2 - 1 / p, lambda p: sin(p) / a1 + x]
+    out = []
+    for b in bases:
+        for ex in ints + rats:
+            pw = safe(lambda: Pow(b, ex))
+            if pw is None:
+                continue
+            for c in ctx:
+                e = safe(c, pw)
+                if e is not None:
+                    out.append(e)
+    # inv / cube / square compositions as ESR's operator set writes them
+    for b in bases[:7]:
+        for e in (safe(lambda: 1 / (b * b * b)), safe(lambda: x + 1 / (b * b * b)), safe(lambda: sin(1 / (b * b * b))),
+                  safe(lambda: 1 / (b * b)), safe(lambda: (b * b * b) / a1), safe(lambda: 1 / (b ** 5) - x)):
+            if e is not None:
+                out.append(e)
+    return out
+
+
 def build(seed, n_random, depth3_cap, max_depth, shard=0, nshards=1):
     """Returns this shard's list of (tag, expr).  depth<=2 exhaustive over LEAVES_FULL, depth 3
     exhaustive over LEAVES_SMALL (capped to depth3_cap by a seeded sample; 0 = no cap), split over the
@@ -260,6 +289,7 @@ def build(seed, n_random, depth3_cap, max_depth, shard=0, nshards=1):
     if depth3_cap and len(s3) > depth3_cap:
         s3 = rng.sample(s3, depth3_cap)
     out += [("d3", e) for e in s3]
+    out += [("dir", e) for e in dedupe(directed(), seen)]
     out = [it for i, it in enumerate(out) if i % nshards == shard]
     rng = esrv.rng(seed, "c12-gen-random-%d" % shard)
     want = n_random // nshards
@@ -351,10 +381,19 @@ def in_fragment(e):
 
 
 def points(rng, n=12):
+    """x > 0, parameters of both signs; every third point has |a_k| > x so that bases such as a0 + x, a0 - x, a0*x - 1
+    take NEGATIVE values there (integer powers of negative bases are inside C12's domain)"""
     pts = []
-    for _ in range(n):
-        pts.append({"x": rng.uniform(0.3, 3.0), "a0": rng.choice([-1, 1]) * rng.uniform(0.3, 2.5),
-                    "a1": rng.choice([-1, 1]) * rng.uniform(0.3, 2.5), "a2": rng.choice([-1, 1]) * rng.uniform(0.3, 2.5)})
+    for i in range(n):
+        if i % 3 == 0:
+            xv = rng.uniform(0.3, 1.0)
+            mags = [rng.uniform(1.3, 2.5) for _ in range(3)]
+            signs = [-1, rng.choice([-1, 1]), rng.choice([-1, 1])] if i % 2 == 0 else [rng.choice([-1, 1]), -1, -1]
+        else:
+            xv = rng.uniform(0.3, 3.0)
+            mags = [rng.uniform(0.3, 2.5) for _ in range(3)]
+            signs = [rng.choice([-1, 1]) for _ in range(3)]
+        pts.append({"x": xv, "a0": signs[0] * mags[0], "a1": signs[1] * mags[1], "a2": signs[2] * mags[2]})
     return pts
 
 
